@@ -261,9 +261,9 @@ struct Sim {
       }
     }
     if (v.flags & 1) { res.fail("output_block", cls("output_block", op.op), "write outside a bound output block", idx); return false; }
-    if (op.op == OP_DATAPTR && v.status == 0 && (v.v[0] != 1.0 || v.v[1] != 1.0)) {
+    if (op.op == OP_DATAPTR && v.status == 0 && (v.v[0] != 1.0 || v.v[1] != 1.0 || v.v[2] != 1.0)) {
       res.fail("data_pointer", cls("data_pointer", op.op), std::string("view does not alias the user buffer in place (data()==buffer: ") + (v.v[0] == 1.0 ? "yes" : "NO") +
-               ", sub-view offsets: " + (v.v[1] == 1.0 ? "ok" : "WRONG") + ")", idx);
+               ", sub-view offsets: " + (v.v[1] == 1.0 ? "ok" : "WRONG") + ", copy of the view views the same buffer: " + (v.v[2] == 1.0 ? "yes" : "NO") + ")", idx);
       return false;
     }
     // (2) the arena changed only inside the destination slot
